@@ -281,7 +281,7 @@ def generate(ctx):
     rng = ctx.rng
     batches = []
     for b in range(ctx.n(1, 5)):
-        sigs = [gen_sig(rng, i, True) for i in range(ctx.n(40, 90))]
+        sigs = [gen_sig(rng, i, True) for i in range(ctx.n(50, 90))]
         # directed: every small integer result type (widening), double _Complex / long double / struct results with
         # 0 and 1 arguments (buffer size boundary), and the known-defect shape (double _Complex argument, not last)
         for t in ['int8_t', 'uint8_t', 'int16_t', 'uint16_t', 'int32_t', 'uint32_t', '_Bool', 'char', 'wchar_t', 'char16_t',
@@ -295,13 +295,27 @@ def generate(ctx):
                          consts=[[d2hex(1.0), d2hex(2.0)], [d2hex(3.0), d2hex(4.0)], -7]))
         scen = []
         for si in range(len(sigs)):
-            gen_scenarios(rng, sigs, si, ctx.n(7, 12), scen)
+            gen_scenarios(rng, sigs, si, ctx.n(8, 12), scen)
         batches.append(dict(kind="batch", tag="b%d" % b, sigs=sigs, scenarios=scen))
-    if ctx.thorough:
-        # ASan only: the last-argument double _Complex store (8 bytes past `a`) and complex results at the size boundary
-        sigs = [dict(args=["double _Complex"], res="void", consts=[[d2hex(1.5), d2hex(-2.25)]])]
-        scen = [dict(id=0, sig=0, path="externpy", body=["ret", ["none"]], error=None, onerror=["none"], wide=False)]
-        batches.append(dict(kind="batch", tag="dc", sigs=sigs, scenarios=scen, asan_only=True))
+    # ASan smoke (every tier): results at the buffer-size boundary (double _Complex / long double / struct / float _Complex
+    # with 0 and 1 arguments, value / error value / zero fill), and the last-argument double _Complex store (8 bytes past `a`)
+    sigs = []
+    for t in ['double _Complex', 'long double', 'struct s3', 'float _Complex', 'int8_t']:
+        sigs.append(dict(args=[], res=t, consts=[]))
+        sigs.append(dict(args=["char"], res=t, consts=[gen_const(rng, "char")]))
+    scen = []
+    for si, sg in enumerate(sigs):
+        R = sg["res"]
+        scen.append(dict(id=len(scen), sig=si, path="externpy", body=["ret", ret_spec(R, gen_const(rng, R))], error=None,
+                         onerror=["none"], wide=False))
+        scen.append(dict(id=len(scen), sig=si, path="externpy", body=["raise"], error=ret_spec(R, gen_const(rng, R)),
+                         onerror=["none"], wide=False))
+        scen.append(dict(id=len(scen), sig=si, path="externpy", body=["ret", gen_bad_ret(rng, R)], error=None,
+                         onerror=["ret", ret_spec(R, gen_const(rng, R))], wide=False))
+    sigs.append(dict(args=["double _Complex"], res="void", consts=[[d2hex(1.5), d2hex(-2.25)]]))
+    scen.append(dict(id=len(scen), sig=len(sigs) - 1, path="externpy", body=["ret", ["none"]], error=None, onerror=["none"],
+                     wide=False))
+    batches.append(dict(kind="batch", tag="smoke", sigs=sigs, scenarios=scen, asan_only=True))
     return batches
 
 
@@ -401,7 +415,7 @@ def finding_key(sig, sc, gbuf=0):
 
 def single_case(batch, sc):
     sig = batch["sigs"][sc["sig"]]
-    return dict(kind="batch", tag="r", sigs=[sig], scenarios=[dict(sc, sig=0, id=0)])
+    return dict(kind="batch", tag="r", sigs=[sig], scenarios=[dict(sc, sig=0, id=0)], asan_only=bool(batch.get("asan_only")))
 
 
 def describe(sig, sc):
@@ -414,7 +428,7 @@ def evaluate(ctx, cases):
     for batch in cases:
         if not batch.get("asan_only"):
             evaluate_batch(ctx, batch, asan=False)
-        if ctx.thorough and (batch["tag"] in ("b0", "r", "dc")):
+        if batch.get("asan_only") or (ctx.thorough and batch["tag"] in ("b0", "r")):
             evaluate_batch(ctx, batch, asan=True)
 
 
